@@ -96,11 +96,11 @@ Lemma trash_walk xs : forall s E P rest (Q : fs -> Prop),
   Good s E -> (forall x, In x xs -> ~ In x (mani_strs s)) ->
   (forall s', Good s' E -> mani_strs s' = mani_strs s -> (forall n, (forall y, n <> NSst y) -> relevant n = true -> lookup n s' = lookup n s) ->
               walk rest s' E P Q) ->
-  walk (map (fun x => (CRename (NSst x) (NTrashSst x), Ignore)) xs ++ rest) s E P Q.
+  walk (map (fun x => (CRename (NSst x) (NTrashSst x), Retire)) xs ++ rest) s E P Q.
 Proof.
   induction xs as [|x xs IH]; intros s E P rest Q Hg Hnl Hp.
   - cbn [map app]. apply Hp; [exact Hg|reflexivity|reflexivity].
-  - cbn [map app]. apply walk_ignore_cons; [now apply good_safe|].
+  - cbn [map app]. apply walk_retire_cons; [now apply good_safe|].
     unfold exec_or. destruct (exec (CRename (NSst x) (NTrashSst x)) s) as [s1|] eqn:E1.
     + apply exec_rename_inv in E1. destruct E1 as (f1 & L1 & ->).
       set (s1 := set (NTrashSst x) f1 (remove (NSst x) s)).
@@ -127,12 +127,22 @@ Proof.
   apply enumerate_ge in Hj. lia.
 Qed.
 
-Lemma compact_walk s v ins outs : Run s v -> compact_ok v ins outs ->
-  walk (compact_prog ins outs s) s (all_entries v) None (fun s' => Run s' (op_next v (OpCompact ins outs))).
+Lemma compact_walk s v gc ins outs : Run s v -> compact_ok v ins outs ->
+  walk (compact_prog gc ins outs s) s (all_entries v) None (fun s' => Run s' (op_next v (OpCompact gc ins outs))).
 Proof.
   intros R [Hincl Hents]. pose proof (run_good s v R) as Hg. destruct R as [Hw Hst Hs Hl Hstrs Hlogs Hcur].
   set (E := all_entries v) in *. unfold compact_prog.
-  set (eo := enumerate 0 outs). set (retire := filter (fun x => negb (mem_sname x outs)) ins).
+  set (eo := enumerate 0 outs). set (rl := filter (fun x => negb (mem_sname x outs)) ins).
+  (* where every branch ends *)
+  assert (Hfinal : forall s9, Good s9 E -> mani_strs s9 = apply_edit (v_files v) (CkEdit outs ins) ->
+                     (forall n, lookup (NLog n) s9 = lookup (NLog n) s) -> Run s9 (op_next v (OpCompact gc ins outs))).
+  { intros s9 [Hst9 (Hw9 & Hs9 & Hl9 & _)] Hstrs9 Hlog9.
+    constructor; cbn [op_next v_files v_cur v_mem]; try assumption.
+    - intros n. rewrite Hlog9. apply Hlogs.
+    - destruct Hcur as (lf & Hlf & Hmem). exists lf. split; [now rewrite Hlog9|exact Hmem]. }
+  assert (Hclean : Forall irrelevant_call (map (fun ix : nat * sname => CUnlink (NComp ins (fst ix))) eo ++ [CRmdir (NCompDir ins)])).
+  { apply Forall_app. split; [|repeat constructor; intros n [<-|[]]; reflexivity].
+    apply Forall_forall. intros c Hc. apply in_map_iff in Hc. destruct Hc as (ix & <- & _). intros n [<-|[]]. reflexivity. }
   (* A and B: the left-over directory, the fresh directory *)
   rewrite if_must. rewrite app_assoc, <- must_app.
   apply walk_app_nodefer; [apply no_defer_must|].
@@ -165,34 +175,38 @@ Proof.
   { intros x Hx. destruct (enumerate_in outs 0%nat x Hx) as (i & Hi). apply (Hall4 i x Hi). }
   { intros e. destruct Hg4 as [_ (_ & _ & _ & C)]. rewrite (C e), Hstrs4. split.
     - intros [(y & Hy & He)|H]; [|now right]. left.
-      destruct (in_dec (fun a b => match Bool.bool_dec (sname_eqb a b) true with
-                                   | left p => left (proj1 (sname_eqb_eq a b) p)
-                                   | right p => right (fun q => p (proj2 (sname_eqb_eq a b) q)) end) y ins) as [Hin|Hnin].
-      + assert (Hc : In e (concat outs)) by (apply Hents, in_concat; eauto).
+      destruct (mem_sname y ins) eqn:Em.
+      + apply mem_sname_in in Em.
+        assert (Hc : In e (concat outs)) by (apply Hents, in_concat; eauto).
         apply in_concat in Hc. destruct Hc as (z & Hz & Hez). exists z. split; [|exact Hez]. rewrite in_apply_edit. now right.
-      + exists y. split; [|exact He]. rewrite in_apply_edit. left. auto.
+      + apply mem_sname_not_in in Em. exists y. split; [|exact He]. rewrite in_apply_edit. left. auto.
     - intros [(y & Hy & He)|H]; [|now right]. left. rewrite in_apply_edit in Hy. destruct Hy as [[Hy _]|Hy]; [eauto|].
       assert (Hc : In e (concat ins)) by (apply Hents, in_concat; eauto).
       apply in_concat in Hc. destruct Hc as (z & Hz & Hez). exists z. split; [now apply Hincl|exact Hez]. }
   intros s7 Hg7 Hstrs7 Ho7.
-  (* F: the retired inputs *)
-  apply trash_walk; [exact Hg7| |].
-  { intros x Hx. unfold retire in Hx. apply filter_In in Hx. destruct Hx as [Hxi Hxo].
+  assert (Hlog7 : forall n, lookup (NLog n) s7 = lookup (NLog n) s).
+  { intros n. rewrite Ho7 by discriminate. apply Hlog4. }
+  assert (Hret : forall x, In x rl -> ~ In x (mani_strs s7)).
+  { intros x Hx. unfold rl in Hx. apply filter_In in Hx. destruct Hx as [Hxi Hxo].
     apply negb_true_iff, mem_sname_not_in in Hxo. rewrite Hstrs7, in_apply_edit. intros [[_ Hn]|Ho]; contradiction. }
-  intros s8 Hg8 Hstrs8 Ho8.
-  (* G: clean-up *)
-  rewrite <- (app_nil_r (must _)). apply walk_app_nodefer; [apply no_defer_must|].
-  eapply walk_conseq; [|apply walk_irrelevant; [|exact Hg8]].
-  2:{ apply Forall_app. split; [|repeat constructor; intros n [<-|[]]; reflexivity].
-      apply Forall_forall. intros c Hc. apply in_map_iff in Hc. destruct Hc as (ix & <- & _). intros n [<-|[]]. reflexivity. }
-  cbn beta. intros s9 (_ & Hg9 & Hsame9).
-  apply walk_nil; [now apply good_safe|].
-  destruct Hg9 as [Hst9 (Hw9 & Hs9 & Hl9 & _)].
-  assert (Hlog9 : forall n, lookup (NLog n) s9 = lookup (NLog n) s).
-  { intros n. rewrite (Hsame9 (NLog n) eq_refl), Ho8 by (try discriminate; reflexivity).
-    rewrite Ho7 by discriminate. apply Hlog4. }
-  constructor; cbn [op_next v_files v_cur v_mem]; try assumption.
-  - rewrite (same_rel_strs _ _ Hsame9), Hstrs8, Hstrs7, Hstrs4. reflexivity.
-  - intros n. rewrite Hlog9. apply Hlogs.
-  - destruct Hcur as (lf & Hlf & Hmem). exists lf. split; [now rewrite Hlog9|exact Hmem].
+  destruct gc.
+  - (* garbage collection: the inputs are retired inside install_version, then the clean-up *)
+    apply trash_walk; [exact Hg7|exact Hret|].
+    intros s8 Hg8 Hstrs8 Ho8.
+    rewrite <- (app_nil_r (must _)). apply walk_app_nodefer; [apply no_defer_must|].
+    eapply walk_conseq; [|apply walk_irrelevant; [exact Hclean|exact Hg8]].
+    cbn beta. intros s9 (_ & Hg9 & Hsame9).
+    apply walk_nil; [now apply good_safe|]. apply Hfinal; [exact Hg9| |].
+    + rewrite (same_rel_strs _ _ Hsame9), Hstrs8, Hstrs7, Hstrs4. reflexivity.
+    + intros n. rewrite (Hsame9 (NLog n) eq_refl), Ho8 by (try discriminate; reflexivity). apply Hlog7.
+  - (* merge: the clean-up first; the snapshot held for the split hints retires the inputs last *)
+    apply walk_app_nodefer; [apply no_defer_must|].
+    eapply walk_conseq; [|apply walk_irrelevant; [exact Hclean|exact Hg7]].
+    cbn beta. intros s8 (_ & Hg8 & Hsame8).
+    rewrite <- (app_nil_r (map _ rl)).
+    apply trash_walk; [exact Hg8|intros x Hx; rewrite (same_rel_strs _ _ Hsame8); now apply Hret|].
+    intros s9 Hg9 Hstrs9 Ho9.
+    apply walk_nil; [now apply good_safe|]. apply Hfinal; [exact Hg9| |].
+    + rewrite Hstrs9, (same_rel_strs _ _ Hsame8), Hstrs7, Hstrs4. reflexivity.
+    + intros n. rewrite Ho9 by (try discriminate; reflexivity). rewrite (Hsame8 (NLog n) eq_refl). apply Hlog7.
 Qed.
